@@ -21,8 +21,8 @@ def jobs(tier):
       Job("code-k5-noexc", M, "h_code", dict(C16_KOPS=5, C16_NEXC=0), shards=509, timeout=t),
       Job("code-k4-exc", M, "h_code", dict(C16_KOPS=4, C16_NEXC=1, C16_GAPS=1), shards=509, timeout=t,
           note="inline caches after every other instruction only"),
-      Job("code-k4-2exc", M, "h_code", dict(C16_KOPS=4, C16_NEXC=2, C16_GAPS=1), shards=509, timeout=t,
-          note="two disjoint exception-table entries (try/except followed by, or nested in, another)"),
+      Job("code-k4-2exc", M, "h_code", dict(C16_KOPS=4, C16_NEXC=2, C16_MINEXC=2, C16_NOEG=1, C16_GAPS=1), shards=251, timeout=t,
+          note="exactly two disjoint exception-table entries ending on instruction boundaries (try/except followed by, or nested in, another)"),
       Job("real-programs", M, "h_real", dict(C16_NSTMT=22, C16_NWRAP=6), shards=251, timeout=t),
   ]
 
@@ -62,7 +62,7 @@ def meta(tier):
                   "pycnite's decoding of code objects", "process_blocks / constant folding"],
       "rule": "one record per completed path keyed by the adjacency bits / the instruction list and exception table; non-trivial: graph = at least 2 edges, code = has a jump or an exception entry",
       "assumptions": [
-          "compiler guarantees assumed: the last instruction does not fall through; a handler follows its protected range; a range that gets a block ends strictly before the last instruction; jumps target instruction starts",
+          "compiler guarantees assumed: the last instruction does not fall through; a handler follows its protected range; a range that gets a block ends strictly before the last instruction; jumps target instruction starts; exception-table entries are disjoint and sorted by start",
           "inputs on which add_pop_block_targets asserts 'POP_BLOCK without block' are not block-structured and are skipped",
           "CrossHair contract-enforcement tracer disabled",
       ],
